@@ -129,15 +129,24 @@ def ensure_facts(mode='lib', repo=None, verbose=False):
         lock.close()
 
 
-def _prune(keep=12):
+def _prune(keep=40, min_age_s=3600):
+    # Concurrent checks (seed sweeps, self-tests) share the cache: never remove a directory another process may
+    # have just been handed, i.e. anything younger than an hour.
     ents = []
+    now = time.time()
     for e in os.listdir(CACHE):
         p = os.path.join(CACHE, e)
         if os.path.isdir(p):
             ents.append((os.path.getmtime(p), p))
+        elif e.startswith('.lock-') and now - os.path.getmtime(p) > 4 * min_age_s:
+            try:
+                os.unlink(p)
+            except OSError:
+                pass
     ents.sort(reverse=True)
-    for _, p in ents[keep:]:
-        shutil.rmtree(p, ignore_errors=True)
+    for mt, p in ents[keep:]:
+        if now - mt > min_age_s:
+            shutil.rmtree(p, ignore_errors=True)
 
 
 if __name__ == '__main__':
